@@ -34,6 +34,14 @@ SkeinOut(g1, nb, outbytes) ==
       RECURSIVE Out(_)
       Out(i) == IF i = nout THEN <<>> ELSE BytesOf(UBIBlock(g1, LE8(i) \o Zeros(nb - 8), 8, TRUE, TRUE, TOUT)) \o Out(i + 1)
   IN SubSeq(Out(0), 1, outbytes)
+\* output blocks b0 .. b0+k-1 of the output stage (for digests too long to recompute whole): the bytes they contribute to a digest
+\* of `outbytes` bytes
+SkeinOutWin(g1, nb, outbytes, b0, k) ==
+  LET RECURSIVE Out(_)
+      Out(i) == IF i = b0 + k THEN <<>> ELSE BytesOf(UBIBlock(g1, LE8(i) \o Zeros(nb - 8), 8, TRUE, TRUE, TOUT)) \o Out(i + 1)
+      avail == outbytes - b0 * nb
+  IN SubSeq(Out(b0), 1, IF k * nb < avail THEN k * nb ELSE avail)
+SkeinHashWin(msg, nb, outbytes, b0, k) == SkeinOutWin(UBIMsgW(SkeinIV(nb, outbytes), msg, 0, nb, TMSG, Z64, TRUE), nb, outbytes, b0, k)
 \* digest of a message whose first `base` bytes were already absorbed into chaining value g (rest = remaining bytes incl. buffered ones)
 SkeinFrom(g, rest, nb, outbytes, base, firstflag) == SkeinOut(UBIMsgW(g, rest, 0, nb, TMSG, base, firstflag), nb, outbytes)
 SkeinHash(msg, nb, outbytes) == SkeinFrom(SkeinIV(nb, outbytes), msg, nb, outbytes, Z64, TRUE)
